@@ -346,6 +346,8 @@ class Check:
             'guard_details': [{'id': r['id'], 'detail': r.get('detail')} for r in guards],
             'solver_seconds_total': solver_s,
             'solver_seconds_max': max([r.get('seconds', 0) for r in mine] or [0]),
+            'slowest_obligations': [{'id': r['id'], 'seconds': r.get('seconds'), 'backend': r.get('backend')}
+                                    for r in sorted(mine, key=lambda r: -(r.get('seconds') or 0))[:6]],
             'functions_under_contract': functions or sorted({r['meta'].get('function') for r in mine if r.get('meta', {}).get('function')}),
             'shapes': sorted({r['meta'].get('shape') for r in mine if r.get('meta', {}).get('shape')}),
             'known_findings_matched': sorted(seen_known),
